@@ -209,11 +209,29 @@ static void rearm()
 static bool engineCall(int fd) { return !t_harness && g_engine && fd >= 0 && fd == g_sessFd.load() && !g_sessDead.load(); }
 
 // ====================================================================================== interposers: plain socket
+// "mid" send: ONE more send() accepted from another thread WHILE process() is dispatching a batch that exceeds the engine's
+// per-wake-up event budget (cfg.epollMaxEvents): fired from inside the first engine write call of such a batch (the I/O thread waits
+// until the helper thread's send() has returned, so the interleaving is deterministic). With "one process() dispatches the whole
+// swapped batch in order" the late command is dispatched after the whole batch; a budgeted re-queue puts the older tail behind it.
+static std::function<void()> g_midHook;            // set by runCase; called on the I/O thread
+static std::atomic<long> g_lastBatch{0};           // size of the batch the current process() call swapped out
+static long g_midBudget = 0;                       // fire only inside a batch larger than this
+static bool g_midFired = false;                    // I/O thread only
+static std::atomic<bool> g_midArmed{false};
+static void maybeMidSend()
+{
+  if (g_midFired || !g_midArmed.load() || !g_midHook || g_lastBatch.load() <= g_midBudget) return;
+  g_midFired = true;
+  cnt("mid_send_inside_batch");
+  g_midHook();
+}
+
 extern "C" ssize_t send(int fd, const void *buf, size_t len, int flags)
 {
   static auto real = realSym<ssize_t (*)(int, const void *, size_t, int)>("send");
   if (!engineCall(fd)) return real(fd, buf, len, flags);
   cnt("send_fired");
+  maybeMidSend();
   Fault f = g_wf.next();
   ssize_t r;
   int e = 0;
@@ -300,6 +318,7 @@ extern "C" int SSL_write(SSL *ssl, const void *buf, int num)
   static auto real = realSym<int (*)(SSL *, const void *, int)>("SSL_write");
   if (!engineSsl(ssl)) return real(ssl, buf, num);
   cnt("SSL_write_fired");
+  maybeMidSend();
   t_injErr = 0;
   int r;
   std::string res;
@@ -577,6 +596,7 @@ extern "C" int pthread_mutex_lock(pthread_mutex_t *m)
   if (!t_harness && !t_inCallbackSend && g_engine && m == g_engine->_cmdMutex.native_handle())
   {
     cnt("cmdMutex_io_locks");
+    g_lastBatch.store(static_cast<long>(g_engine->_cmds.size()));
     tok("S:" + std::to_string(g_engine->_cmds.size()));
   }
   return r;
@@ -641,6 +661,8 @@ struct Case
   bool gate = false;               // nolock + gate: see the comment at pthread_mutex_lock (one accepted send = one command)
   bool nolock = false;             // senders call Transport::send concurrently (no harness mutex); payloads carry (thread, seq)
   std::vector<PeerWrite> s2;       // payloads for a SECOND live session on the same engine (not traced; cross-talk monitor)
+  int eme = 0;                     // > 0: TransportConfig::epollMaxEvents (the engine's per-wake-up event budget); 0 = default
+  PeerWrite midSend{0, 0, 0};      // len > 0: one send from a helper thread while process() dispatches a batch larger than the budget
   PeerWrite cbSend{0, 0, 0};       // len > 0: one send issued from inside the accept / connect callback (I/O thread), whichever fires first
   PeerWrite clSend{0, 0, 0};       // len > 0: one send issued from inside the close callback (the session is gone: accepted, never written)
   bool expectEarlyEnd = false;     // the schedule contains something that may legitimately end the session early
@@ -701,6 +723,15 @@ static bool parseCase(const std::vector<std::string> &t, Case &c)
     else if (k == "async") { if (!nat() || n > 3) return false; c.async = static_cast<int>(n); }
     else if (k == "nolock") { if (!nat()) return false; c.nolock = n; }
     else if (k == "gate") { if (!nat()) return false; c.gate = n; }
+    else if (k == "eme") { if (!nat() || n > 100000) return false; c.eme = static_cast<int>(n); }
+    else if (k == "mid")
+    {
+      if (v == "-") continue;
+      auto p = splitc(v, '.');
+      unsigned long long a, b;
+      if (p.size() != 2 || !vh::parseNat(p[0], a) || !vh::parseNat(p[1], b) || a == 0) return false;
+      c.midSend = PeerWrite{static_cast<std::size_t>(a), static_cast<unsigned>(b), 0};
+    }
     else if (k == "so") { if (!nat()) return false; g_soInj = static_cast<int>(n); }
     else if (k == "gp")
     {
@@ -943,11 +974,13 @@ static void runCase(const Case &c, SSL_CTX *peerCli, SSL_CTX *peerSrv)
   g_waitIdx = 0; g_sslPendK = 0; g_sslPendBuf = nullptr; g_movedRetries = 0;
   g_peerRx.store(0); g_peerWritten.store(0); g_peerDone.store(false); g_peerFd.store(-1); g_peerAbort.store(false); g_peerWritesDone.store(false);
   g_gpIdx = 0; g_soIdx = 0;
+  g_midArmed.store(false); g_midHook = nullptr; g_midFired = false; g_lastBatch.store(0);
 
   auto caseStart = Clock::now();
   TransportConfig cfg;
   cfg.useEdgeTriggered = c.et;
   cfg.batching.enabled = c.batch;
+  if (c.eme > 0) cfg.epollMaxEvents = c.eme;
   cfg.maxWriteQueue = c.mwq;
   cfg.closeOnBackpressure = c.cob;
   cfg.ioReadChunk = c.chunk;
@@ -1205,6 +1238,25 @@ static void runCase(const Case &c, SSL_CTX *peerCli, SSL_CTX *peerSrv)
       }
     });
   }
+  std::atomic<int> midSends{0};
+  if (sid.load() >= 0 && c.midSend.len > 0 && !c.nolock)
+  {
+    g_midBudget = c.eme > 0 ? c.eme : 256;
+    SessionId ms = static_cast<SessionId>(sid.load());
+    g_midHook = [&, ms]
+    {
+      std::thread h([&, ms]
+      {
+        t_harness = true;
+        auto pl = mkPayload(c.midSend.pat, c.midSend.len);
+        std::lock_guard<std::mutex> g(g_accMx);
+        if (!g_midArmed.load()) return;
+        if (t->send(ms, iora::core::BufferView{pl.data(), pl.size()})) { noteAcceptedSend(c.midSend.len, c.midSend.pat); midSends++; }
+      });
+      h.join();
+    };
+    g_midArmed.store(true);
+  }
   if (sid.load() >= 0)
   {
     SessionId s = static_cast<SessionId>(sid.load());
@@ -1343,9 +1395,11 @@ static void runCase(const Case &c, SSL_CTX *peerCli, SSL_CTX *peerSrv)
     // the mutex is NOT held across stop(): a data callback that is about to send (echo) takes it on the I/O thread.
     // A command accepted between this record and stop()'s own enqueue is trace-equivalent (Shutdown issues no call).
     std::lock_guard<std::mutex> g(g_accMx);
+    g_midArmed.store(false);
     g_acc.push_back("Q");
   }
   t->stop();
+  g_midHook = nullptr;
   g_engine = nullptr;
   newSegment();
   // after stop() the session is closed: the peer sees EOF
@@ -1437,14 +1491,14 @@ static void runCase(const Case &c, SSL_CTX *peerCli, SSL_CTX *peerSrv)
   std::printf("fin peer_rx=%zu exp_total=%zu peer_diff=%lld peer_eof=%d dlv=%zu pw_written=%zu pw_total=%zu dlv_diff=%lld closed_cb=%d close_why=%s "
               "connected_cb=%d accepted_cb=%d stall=%d foreign=%d peer_hs=%d moved=%d ms=%lld stall_outq=%ld stall_peer_inq=%ld "
               "tag_err=%lld tag_what=%s tag_frames=%d tag_accepted=%d gate_waited=%d s2=%d s2_rx=%zu s2_total=%zu s2_diff=%lld lostwake=%ld "
-              "api=%d.%d.%d.%d oclose=%d.%d.%d.%d cbsend=%d clsend=%d note=%s\n",
+              "api=%d.%d.%d.%d oclose=%d.%d.%d.%d cbsend=%d clsend=%d mid=%d note=%s\n",
               pr.rx.size(), c.nolock ? g_expTotal.load() : expect.size(), firstDiff(pr.rx, expect), pr.eof, delivered.size(), pr.written, pwTotal,
               firstDiff(delivered, pwAll), closedCb.load(), closeWhy.c_str(), connectedCb.load(), acceptedCb.load(), stall ? 1 : 0,
               g_foreignThread.load() ? 1 : 0, pr.hsOk ? 1 : 0, g_movedRetries,
               static_cast<long long>(std::chrono::duration_cast<milliseconds>(Clock::now() - caseStart).count()), stallOutq, stallPeerInq,
               tagErr, tagWhat.c_str(), tagFrames, taggedAccepted.load(), g_gateWaited.load(), haveS2 ? 1 : 0, pr2.rx.size(), expect2.size(), firstDiff(pr2.rx, expect2), lostWake,
               apiCalls[0].load(), apiCalls[1].load(), apiCalls[2].load(), apiCalls[3].load(),
-              originCloses[0].load(), originCloses[1].load(), originCloses[2].load(), originCloses[3].load(), cbSends.load(), clSends.load(), pr.note.empty() ? "-" : pr.note.c_str());
+              originCloses[0].load(), originCloses[1].load(), originCloses[2].load(), originCloses[3].load(), cbSends.load(), clSends.load(), midSends.load(), pr.note.empty() ? "-" : pr.note.c_str());
   std::printf("end %s\n", c.id.c_str());
   std::fflush(stdout);
 }
